@@ -557,6 +557,29 @@ def combineStr (join : List Char) : List Tok → List Char
 
 /-! ### parse actions (library shared with harness/actions.py) -/
 
+/-- the model's stand-in for a plain Python `[]` where a ParseResults could stand as well (the no-match branch of a named
+    list-`Opt`): an annotation with the EMPTY name, which `ParseResults.__init__` ignores (results.py:182) — invisible in
+    every view -/
+def plainNil : Tok := .nm [] true false []
+
+def Tok.isGroup : Tok → Bool
+  | .g _ => true
+  | _ => false
+
+/-- `ParseResults(tokens, name, asList, modal)` (core.py:867-869) for tokens that are a ParseResults: the same object,
+    re-initialised (`[.nm …]` around its annotated tokens) — except that the plain `[]` of `Opt` is a null value
+    (results.py:193: only `_name` / `_all_names` are set, nothing is bound) -/
+def nameBind (n : List Char) (m al : Bool) : List Tok → List Tok
+  | [.nm [] _ _ []] => [.nm n m false []]
+  | ts => [.nm n m al ts]
+
+/-- the same for a plain list `ts` of items (results.py:193-211): `[]` is a null value; with asList the name is bound to
+    `ParseResults(toklist[0])` — the first element itself when it is a nested result, else a one-element result of it —
+    otherwise to `toklist[0]` -/
+def bindPlain (n : List Char) (m al : Bool) : List Tok → List Tok
+  | [] => [.nm n m false []]
+  | t :: rest => if al then .nm n m (!t.isGroup) [t] :: rest else [.nm n m false (t :: rest)]
+
 /-- the action loop of _parseNoCache (864-904); `start` = tokens_start -/
 def runActs : List Act → Nat → Nat → List Tok → Out
   | [], _, e, ts => .ok e ts
@@ -568,7 +591,8 @@ def runActs : List Act → Nat → Nat → List Tok → Out
     | .drop => runActs as start e []
     | .rev => runActs as start e (stripTopL ts).reverse
     | .dup => runActs as start e (stripTopL ts ++ stripTopL ts)
-    | .name n m al => runActs as start e [.nm n m al ts]
+    | .name n m al => runActs as start e (nameBind n m al ts)
+    | .nameL n m al => runActs as start e (bindPlain n m al ts)
     | .app v => runActs as start e (ts ++ [.s v])
     | .failP => .fail .parse start
     | .failF => .fail .fatal start
@@ -602,8 +626,21 @@ def optDefault (g : Grammar) (e : Nat) (dflt : Option (List Char)) : List Tok :=
     match g[e]? with
     | some n => (match n.acts with
       | .name nm _ _ :: _ => [.nm nm true false [.s v]]
+      | .nameL nm _ _ :: _ => [.nm nm true false [.s v]]
       | _ => [.s v])
     | none => [.s v]
+
+/-- the three results names `Located` binds (5066-5068) -/
+def nmLocnStart : List Char := ['l', 'o', 'c', 'n', '_', 's', 't', 'a', 'r', 't']
+def nmValue : List Char := ['v', 'a', 'l', 'u', 'e']
+def nmLocnEnd : List Char := ['l', 'o', 'c', 'n', '_', 'e', 'n', 'd']
+
+/-- the no-match branch of `Opt.parseImpl` returns a plain list (5394-5402): when that is `[]` and the Opt itself carries a
+    list-valued results name, the difference to an empty ParseResults is observable (nothing is bound) — marked by `plainNil` -/
+def optNoMatch (nd : Node) (ts : List Tok) : List Tok :=
+  match ts, nd.acts with
+  | [], .name _ _ true :: _ => [plainNil]
+  | ts, _ => ts
 
 /-- `parseImpl` dispatch -/
 def parseImpl (g : Grammar) (p : P) (nd : Node) (s : List Char) (loc : Nat) (acts : Bool) : Out :=
@@ -640,8 +677,8 @@ def parseImpl (g : Grammar) (p : P) (nd : Node) (s : List Char) (loc : Nat) (act
   | .opt e dflt =>
       -- Opt.parseImpl (5368-5384)
       (match p e loc acts false with
-       | .fail .parse _ => .ok loc (optDefault g e dflt)
-       | .idx => .ok loc (optDefault g e dflt)
+       | .fail .parse _ => .ok loc (optNoMatch nd (optDefault g e dflt))
+       | .idx => .ok loc (optNoMatch nd (optDefault g e dflt))
        | o => o)
   | .many e ne one =>
       if one then manyImpl p nd acts s.length e ne loc
@@ -666,7 +703,10 @@ def parseImpl (g : Grammar) (p : P) (nd : Node) (s : List Char) (loc : Nat) (act
       -- Located.parseImpl (5045-5056)
       (match p e loc acts false with
        | .ok l ts =>
-          let r : List Tok := [.n loc, .g ts, .n l]
+          -- `ret_tokens["locn_start"] = start; ret_tokens["value"] = tokens; ret_tokens["locn_end"] = loc` (5066-5068);
+          -- `value` is the inner result object itself (it keeps its own names)
+          let r : List Tok := [.nm nmLocnStart true false [.n loc], .nm nmValue true false [.g ts],
+                               .nm nmLocnEnd true false [.n l]]
           .ok l (if nd.hasName then [.g r] else r)
        | o => o)
   | .group e => enhanceImpl p acts (some e) loc
